@@ -70,7 +70,8 @@ def flavour_batch():
     fx('memory.init above an i64 operand that is returned', 'iii', 'I', K + a3 + memory_init(seg), i3)
     fx('memory.copy above an i64 operand that is returned', 'iii', 'I', K + a3 + memory_copy(), i3)
     fx('memory.fill above an i64 operand that is returned', 'iii', 'I', K + a3 + memory_fill(), i3)
-    fx('data.drop above an i64 operand that is returned', 'iii', 'I', K + data_drop(seg), i3)
+    m.datas.append(('passive', 0, b'', b'dropme'))          # a segment of its own for data.drop (the functions of a batch share one instance)
+    fx('data.drop above an i64 operand that is returned', 'iii', 'I', K + data_drop(seg + 1), i3)
     fx('store address pushed BEFORE a memory.init, value after it', 'ii', 'i', local_get(0) + i32_const(40) + i32_const(0) + i32_const(8) + memory_init(seg) + local_get(1) + memop(0x36, 0, 0) + local_get(0) + memop(0x28, 0, 0), i2)
     fx('load after a memory.copy in the same block', 'ii', 'i', i32_const(500) + i32_const(0) + i32_const(16) + memory_copy() + local_get(0) + memop(0x28, 0, 0) + local_get(1) + op(0x6a), i2)
     fx('if (result i32) whose arm ends with memory.fill; value', 'ii', 'i', local_get(1) + if_('i') + local_get(0) + i32_const(0x77) + i32_const(4) + memory_fill() + local_get(0) + memop(0x28, 0, 0) + ELSE + i32_const(9) + END, i2)
